@@ -7,6 +7,10 @@ Tie: correspondence `provenance`: for every mutable container of a real result t
 argument / shared with a second result or with the model class's default / new) vs the model's annotation.
 Direct oracle (real code only): deep snapshot of the argument before/after; equal arguments give equal results; id() overlap
 between mutable containers of two successive results, of result and argument, for load, dump and convert; extra_in / extra_out.
+Providers outside the default recipe (flag_by_member_names, enum_by_*, datetime/date by format and timestamp, default_dict,
+as_list, extra_out, default factories; each as every element kind) are covered by the oracle of c20_providers.py: three calls with
+equal arguments through one retort, results equal, no shared container, nothing retained by the retort after the results are
+modified in place.
 """
 import collections
 import copy
@@ -16,6 +20,7 @@ from dataclasses import dataclass, field
 from extract import scalars
 from harness import morph
 from harness.core import Ctx
+from harness.props import c20_providers
 
 ID = "C20"
 PROPS_FILE = "AdaptixProofs/Props/C20.lean"
@@ -38,11 +43,14 @@ CLAIM = {
         "cases. One-shot iterators are consumed by loading by nature and are excluded from 'argument unchanged'. convert and "
         "extra_in/extra_out are checked by the oracle only (not modelled). A mutable DEFAULT VALUE object (e.g. a NamedTuple "
         "field `xs: list = [Decimal(1)]`) is the model class's own object and is shared between results exactly as the class's "
-        "own constructor shares it; it is annotated `const` and not counted as built by adaptix."
+        "own constructor shares it; it is annotated `const` and not counted as built by adaptix. The representation providers "
+        "outside the default recipe (flag_by_member_names, enum_by_name/value, datetime/date by format and timestamp, default_dict, "
+        "as_list layouts) are NOT in the Lean model: their purity is checked by the direct oracle only (suite `providers`)."
     ),
     "design_ref": "DESIGN.md §4 C20",
 }
-RULE = ("generated types x valid data x pairs of successive calls (load, dump), 3 modes; convert and extra probes; non-trivial = "
+RULE = ("generated types x valid data x pairs of successive calls (load, dump), 3 modes; convert and extra probes; representation "
+        "providers x element kinds x retort modes x three calls with equal arguments through one retort; non-trivial = "
         "the result contains at least one mutable container")
 ASSUMPTIONS = ["identity is observed with id() while all objects are alive", "one-shot iterators excluded from 'argument unchanged'"]
 TRUSTED = []
@@ -529,6 +537,7 @@ def run(ctx: Ctx):
     extra_layout_suite(ctx, ctx.budget(120, 2000))
     mapping_input_suite(ctx, ctx.budget(80, 1500))
     convert_probes(ctx)
+    c20_providers.suite(ctx, ctx.budget(400, 6000))
 
 
 def search(ctx: Ctx):
@@ -540,9 +549,12 @@ def search(ctx: Ctx):
     extra_layout_suite(ctx, 1500)
     mapping_input_suite(ctx, 800)
     convert_probes(ctx)
+    c20_providers.suite(ctx, 3000)
 
 
 def replay(ctx: Ctx, case) -> bool:
+    if isinstance(case, dict) and case.get("suite") == "providers":
+        return c20_providers.replay(ctx, case)
     before = len(ctx.failures)
     default_probes(ctx)
     extra_probes(ctx)
